@@ -11,6 +11,7 @@ Execution materialises every written buffer into an array after each call, so ev
 the number of calls; cells outside a buffer's box read as 0 (never read by a well-formed program).
 -/
 import SophtVerif.Model.Prog2D
+import SophtVerif.Model.Prog3D
 import SophtVerif.Core.RatTransc
 import Std.Data.HashMap
 
@@ -117,6 +118,7 @@ def dispatch (name : String) (a : Args) : Option (List (Call2 String ℚ)) :=
   | "poisson_post_2d" => some (poissonPost2D ny nx poissonBufs "solution_field")
   | "ns_step_2d_pre" => some (nsStep2DPre T (nsCfg a) nsBufs)
   | "ns_step_2d_post" => some (nsStep2DPost (nsCfg a) nsBufs)
+  | "passive_step_2d" => some (passiveStep2D ny nx "primary" "buffer_scalar" (v2 "velocity") (a.rat "dt") (a.rat "dx") (a.rat "nu"))
   | _ => none
 
 def showRect (r : Rect2) : String :=
